@@ -52,6 +52,7 @@ mpn_mul_trunc_sqrt2(mp_ptr r1, mp_srcptr i1, mp_size_t n1,
    TMP_DECL;
 
    TMP_MARK;
+   VERIF_EV ("fft.coeff", bits1, j1, j2, n*w);
    ii = TMP_BALLOC_MP_PTRS(4*(n + n*size) + 5*size);
    for (i = 0, ptr = (mp_ptr) ii + 4*n; i < 4*n; i++, ptr += size) 
    {
